@@ -395,6 +395,9 @@ def resource_observer_pass(ctx):
         A = E.EClass('A')
         A.eStructuralFeatures.extend([E.EAttribute('n', E.EInt), E.EAttribute('xs', E.EInt, upper=-1, unique=False),
                                       E.EReference('kids', A, upper=-1, containment=True), E.EReference('friend', A)])
+        parts = E.EReference('parts', A, upper=-1, containment=True)
+        whole = E.EReference('whole', A, eOpposite=parts)
+        A.eStructuralFeatures.extend([parts, whole])
         res = Resource()
         inside, outside = [], []
         for _ in range(rng.randint(1, 2)):
@@ -432,9 +435,26 @@ def resource_observer_pass(ctx):
                     v = rng.randint(1, 9)
                 o.n = v
                 ev = (id(o), 'SET', 'n')
-            elif c < .7:
+            elif c < .6:
                 o.xs.append(rng.randint(1, 9))
                 ev = (id(o), 'ADD', 'xs')
+            elif c < .75:
+                # a new part, by append / insert / add: the part's own end (`whole`) is an implicit change of an object that
+                # is inside the resource the moment it is made
+                part = A()
+                how = rng.choice(['append', 'insert', 'add'])
+                if how == 'append':
+                    o.parts.append(part)
+                elif how == 'insert':
+                    o.parts.insert(0, part)
+                else:
+                    o.parts.add(part)
+                is_in = any(o is x for x in inside)
+                (inside if is_in else outside).append(part)
+                calls.append(f'parts.{how} of a new object on an object {"inside" if is_in else "outside"} the resource')
+                if is_in:
+                    want += [(id(part), 'SET', 'whole'), (id(o), 'ADD', 'parts')]
+                continue
             else:
                 t = rng.choice(inside + outside)
                 if o.friend is t:
@@ -529,6 +549,68 @@ def self_opposite_pass(ctx):
         ctx.nontriv(('self-opposite', k))
 
 
+def negative_step_pass(ctx):
+    """`l[a:b:k] = ys` with a negative step on list-like features: as many elements as the slice has — the observers' mirror
+    follows; another number — the call is refused, nothing is reported, nothing changes"""
+    from collections import Counter
+    from pyecore import ecore as E
+    from pyecore.notification import EObserver, Kind
+    for k in range(40 if ctx.quick() else 600):
+        rng = common.sub_rng(ctx.seed, 'C05', 'negative-step', k)
+        A, B = E.EClass('A'), E.EClass('B')
+        ref = k % 2 == 1
+        f = E.EReference('xs', B, upper=-1, unique=False) if ref else E.EAttribute('xs', E.EInt, upper=-1, unique=False)
+        A.eStructuralFeatures.append(f)
+        a = A()
+        pool = [B() for _ in range(8)] if ref else list(range(100, 108))
+        n = rng.randint(2, 5)
+        a.xs.extend(pool[:n])
+        notifs = []
+        EObserver(a, notifyChanged=lambda x: notifs.append(x))
+        lo, hi, step = rng.choice([None, rng.randint(-n, n)]), rng.choice([None, rng.randint(-n - 1, n)]), rng.choice([-1, -1, -2, -3])
+        size = len(range(*slice(lo, hi, step).indices(n)))
+        right = rng.random() < .4
+        m = size if right else rng.choice([x for x in range(0, size + 3) if x != size])
+        ys = pool[n:n + m] if ref else [200 + i for i in range(m)]
+        before = list(a.xs)
+        model = list(before)
+        try:
+            model[lo:hi:step] = ys
+            py_ok = True
+        except ValueError:
+            py_ok = False
+        try:
+            a.xs[lo:hi:step] = ys
+            raised = None
+        except Exception as e:
+            raised = type(e).__name__
+        ctx.evaluations += 1
+        ctx.count('negative-step/' + ('right-size' if right else 'wrong-size'))
+        ctx.nontriv(('negative-step', k))
+        key = (lambda v: id(v)) if ref else (lambda v: v)
+        mirror = Counter(key(v) for v in before)
+        bad = None
+        for x in notifs:
+            gone = [x.old] if x.kind is Kind.REMOVE else (list(x.old) if x.kind is Kind.REMOVE_MANY else [])
+            come = [x.new] if x.kind is Kind.ADD else (list(x.new) if x.kind is Kind.ADD_MANY else [])
+            for v in gone:
+                mirror[key(v)] -= 1
+            for v in come:
+                mirror[key(v)] += 1
+        now = list(a.xs)
+        if py_ok != (raised is None):
+            bad = f'a list {"accepts" if py_ok else "refuses"} it, the feature {"raised " + raised if raised else "accepted it"}'
+        elif [key(v) for v in now] != [key(v) for v in (model if py_ok else before)]:
+            bad = 'the contents are not what a list holds afterwards'
+        elif +mirror != Counter(key(v) for v in now):
+            bad = f'the mirror kept from {len(notifs)} notification(s) does not hold what the feature holds'
+        if bad:
+            ctx.violate({'clause': 'mirror', 'negative_step': True, 'right_size': right},
+                        f'mirror: l[{lo}:{hi}:{step}] = {m} element(s) on {n} ({"reference" if ref else "attribute"}; the slice has {size}): {bad}',
+                        {'negative_step': k})
+            return
+
+
 def run(ctx):
     common.use_repo()
     ctx.rule = ('(a) exhaustive slot level: every slot state over a universe of 3 (quick) / 4 elements x every mutator x every index '
@@ -543,6 +625,7 @@ def run(ctx):
     listener_pass(ctx)
     resource_observer_pass(ctx)
     self_opposite_pass(ctx)
+    negative_step_pass(ctx)
     equal_values_pass(ctx)
     ctx.assumptions += ['set.discard() is not in the property\'s operation list and bypasses notification (not judged)',
                         'notifications that report no change (SET old==new, ADD of a present element of a set) are not violations',
